@@ -4,12 +4,17 @@
 //! delivery (whole and chunked), parser objects with a history (other documents, other language,
 //! ranges set and cleared, reset, a cancelled parse), logger on, cancellation by the progress callback
 //! at invocation index k followed by resume or by reset + fresh parse.
+//! Round 8: a parser whose first parse FAILED (no language assigned), language switched back and forth with
+//! and without parses / with a cancelled parse pending, a cancelled parse cleared by `set_language` instead of
+//! `reset`, cancellation at a later callback, ranges set and cleared without a parse, logger / dot graphs on
+//! and switched off again, dot graphs on during the parse, a custom decode function (`TSInputEncodingCustom`)
+//! that decodes UTF-8, and resumption of a cancelled parse whose input arrives in 4-byte chunks.
 //! Function-level `L`/`D` lines (lexer scripts under chunkers, decoder) are emitted as in c13.
 //! usage: c09 <ops-file> [--spec <file>] [lang...]
-//! spec: `<lang> <dochex|-> <drive>` with drive = c<k> | s<p1,p2,..> | pt:c<k> | u16le:pt:c<k> | u16be:pt:c<k> | u16le | u16be | u16le:c<k> | hist:<ops> | log | cancel:<k>:resume | cancel:<k>:reset
+//! spec: `<lang> <dochex|-> <drive>` with drive = c<k> | s<p1,p2,..> | pt:c<k> | u16le:pt:c<k> | u16be:pt:c<k> | u16le | u16be | u16le:c<k> | hist:<ops> | failed | log | dot | dotlog | custom:c<k> | cancel:<k>:resume | cancel:<k>:resume4 | cancel:<k>:reset
 use std::io::Write;
 use std::ops::ControlFlow;
-use tree_sitter::{Language, ParseOptions, Parser, Point, Range, Tree};
+use tree_sitter::{Decode, Language, ParseOptions, Parser, Point, Range, Tree};
 use tsv_harness::*;
 
 fn hx(b: &[u8]) -> String {
@@ -20,6 +25,7 @@ struct Ctx<'a> {
     lang: &'a Language,
     other: &'a Language,
     other_doc: &'a [u8],
+    other_big: &'a [u8],
 }
 
 fn fresh(lang: &Language) -> Parser {
@@ -122,6 +128,57 @@ fn parse_u16(p: &mut Parser, units: &[u16], be: bool, k: usize) -> Option<Tree> 
     if be { p.parse_utf16_be_with_options(&mut cb, None, None) } else { p.parse_utf16_le_with_options(&mut cb, None, None) }
 }
 
+/// A custom decode function (`TSInputEncodingCustom`) that decodes UTF-8 like `ts_decode_utf8` does on
+/// well-formed text: (-1, 1) when the bytes at hand do not hold a whole well-formed character.
+static HIST_CANCELLED: std::sync::atomic::AtomicUsize = std::sync::atomic::AtomicUsize::new(0);
+
+struct Utf8Custom;
+impl Decode for Utf8Custom {
+    fn decode(bytes: &[u8]) -> (i32, u32) {
+        if bytes.is_empty() {
+            return (-1, 0);
+        }
+        let b0 = bytes[0];
+        let n = if b0 < 0x80 { 1 } else if b0 & 0xe0 == 0xc0 { 2 } else if b0 & 0xf0 == 0xe0 { 3 } else if b0 & 0xf8 == 0xf0 { 4 } else { 0 };
+        if n == 0 || bytes.len() < n {
+            return (-1, 1);
+        }
+        match std::str::from_utf8(&bytes[..n]) {
+            Ok(st) => (st.chars().next().map(|c| c as i32).unwrap_or(-1), n as u32),
+            Err(_) => (-1, 1),
+        }
+    }
+}
+
+fn parse_custom(p: &mut Parser, doc: &[u8], k: usize) -> Option<Tree> {
+    let len = doc.len();
+    p.parse_custom_encoding::<Utf8Custom, _, _>(
+        &mut |byte: usize, _pt: Point| if byte >= len { &doc[0..0] } else if k == 0 { &doc[byte..] } else { &doc[byte..(byte + k).min(len)] },
+        None,
+        None,
+    )
+}
+
+/// Parse `text`, cancelling at progress-callback invocation `k` (a complete parse if it ends earlier).
+fn cancelled_parse(p: &mut Parser, text: &[u8], k: usize) -> Option<Tree> {
+    let mut n = 0usize;
+    let mut cb = |_: &tree_sitter::ParseState| {
+        let stop = n == k;
+        n += 1;
+        if stop { ControlFlow::Break(()) } else { ControlFlow::Continue(()) }
+    };
+    let len = text.len();
+    let r = p.parse_with_options(&mut |b: usize, _| if b >= len { &text[0..0] } else { &text[b..] }, None, Some(ParseOptions::new().progress_callback(&mut cb)));
+    if r.is_none() {
+        HIST_CANCELLED.fetch_add(1, std::sync::atomic::Ordering::Relaxed);
+    }
+    r
+}
+
+fn devnull() -> std::fs::File {
+    std::fs::OpenOptions::new().write(true).open("/dev/null").expect("open /dev/null")
+}
+
 /// Use the parser for other things first.
 fn apply_history(p: &mut Parser, cx: &Ctx, doc: &[u8], ops: &str) {
     for op in ops.split('+') {
@@ -156,6 +213,50 @@ fn apply_history(p: &mut Parser, cx: &Ctx, doc: &[u8], ops: &str) {
                 let _ = p.parse_with_options(&mut |b: usize, _| if b >= len { &doc[0..0] } else { &doc[b..] }, None, Some(ParseOptions::new().progress_callback(&mut cb)));
                 p.reset();
             }
+            "flip" => {
+                // language switched back and forth without a parse
+                p.set_language(cx.other).unwrap();
+                p.set_language(cx.lang).unwrap();
+            }
+            "langcancel" => {
+                // a parse in the other language is cancelled and left pending; switching back must clear it
+                p.set_language(cx.other).unwrap();
+                let _ = cancelled_parse(p, cx.other_big, 1);
+                p.set_language(cx.lang).unwrap();
+            }
+            "cancelsl" => {
+                // a cancelled parse of this document, cleared by `set_language` (which resets) instead of `reset`
+                let _ = cancelled_parse(p, doc, 0);
+                p.set_language(cx.lang).unwrap();
+            }
+            "cancelk" => {
+                // cancelled later (third callback), then reset
+                let _ = cancelled_parse(p, doc, 2);
+                p.reset();
+            }
+            "cancelo" => {
+                // a cancelled parse of ANOTHER document, then reset
+                let _ = cancelled_parse(p, cx.other_big, 1);
+                p.reset();
+            }
+            "rset" => {
+                // ranges set and cleared without a parse in between
+                let n = doc.len();
+                let r = Range { start_byte: n / 3, end_byte: n / 2, start_point: point_at(doc, n / 3), end_point: point_at(doc, n / 2) };
+                let _ = p.set_included_ranges(&[r]);
+                p.set_included_ranges(&[]).unwrap();
+            }
+            "logoff" => {
+                p.set_logger(Some(Box::new(|_, _| {})));
+                let _ = p.parse(&doc[..doc.len() / 2], None);
+                p.set_logger(None);
+            }
+            "dotoff" => {
+                let f = devnull();
+                p.print_dot_graphs(&f);
+                let _ = p.parse(&doc[..doc.len().min(200) / 2], None);
+                p.stop_printing_dot_graphs();
+            }
             "incr" => {
                 // an incremental re-parse of another document
                 if let Some(mut t) = p.parse(cx.other_doc, None) {
@@ -185,7 +286,7 @@ fn count_callbacks(lang: &Language, doc: &[u8]) -> usize {
 
 /// Cancel at callback invocation `k`, then resume (same parser, same input) or reset and parse afresh.
 /// Returns (tree, was_cancelled).
-fn parse_cancel(lang: &Language, doc: &[u8], k: usize, resume: bool) -> (Option<Tree>, bool) {
+fn parse_cancel(lang: &Language, doc: &[u8], k: usize, resume: bool, chunk: usize) -> (Option<Tree>, bool) {
     let mut p = fresh(lang);
     let len = doc.len();
     let mut n = 0usize;
@@ -195,7 +296,7 @@ fn parse_cancel(lang: &Language, doc: &[u8], k: usize, resume: bool) -> (Option<
             n += 1;
             if stop { ControlFlow::Break(()) } else { ControlFlow::Continue(()) }
         };
-        p.parse_with_options(&mut |b: usize, _| if b >= len { &doc[0..0] } else { &doc[b..] }, None, Some(ParseOptions::new().progress_callback(&mut cb)))
+        p.parse_with_options(&mut |b: usize, _| if b >= len { &doc[0..0] } else if chunk == 0 { &doc[b..] } else { &doc[b..(b + chunk).min(len)] }, None, Some(ParseOptions::new().progress_callback(&mut cb)))
     };
     if let Some(t) = first {
         return (Some(t), false); // finished before the k-th callback
@@ -208,7 +309,7 @@ fn parse_cancel(lang: &Language, doc: &[u8], k: usize, resume: bool) -> (Option<
         guard += 1;
         if guard > 1_000_000 { ControlFlow::Break(()) } else { ControlFlow::Continue(()) }
     };
-    let t = p.parse_with_options(&mut |b: usize, _| if b >= len { &doc[0..0] } else { &doc[b..] }, None, Some(ParseOptions::new().progress_callback(&mut cb2)));
+    let t = p.parse_with_options(&mut |b: usize, _| if b >= len { &doc[0..0] } else if chunk == 0 { &doc[b..] } else { &doc[b..(b + chunk).min(len)] }, None, Some(ParseOptions::new().progress_callback(&mut cb2)));
     (t, true)
 }
 
@@ -267,6 +368,26 @@ fn run_drive(out: &mut impl Write, cid: &str, n: &mut usize, st: &mut Stats, cx:
         apply_history(&mut p, cx, doc, ops);
         let t = p.parse(doc, None);
         emit_drive(out, cid, n, st, "history", drive, "", t);
+    } else if drive == "failed" {
+        // the parser's first parse FAILS (no language assigned); then it is given the language and used
+        let mut p = Parser::new();
+        let failed = p.parse(doc, None).is_none();
+        p.set_language(cx.lang).unwrap();
+        let t = if failed { p.parse(doc, None) } else { None };
+        emit_drive(out, cid, n, st, "history", drive, "", t);
+    } else if drive == "dot" || drive == "dotlog" {
+        let mut p = fresh(cx.lang);
+        let f = devnull();
+        p.print_dot_graphs(&f);
+        if drive == "dotlog" {
+            p.set_logger(Some(Box::new(|_, _| {})));
+        }
+        let t = p.parse(doc, None);
+        p.stop_printing_dot_graphs();
+        emit_drive(out, cid, n, st, "logger", drive, "", t);
+    } else if let Some(k) = drive.strip_prefix("custom:c").and_then(|k| k.parse::<usize>().ok()) {
+        let t = parse_custom(&mut fresh(cx.lang), doc, k);
+        emit_drive(out, cid, n, st, "chunk", &format!("c{k}"), "", t);
     } else if drive == "log" {
         let mut p = fresh(cx.lang);
         p.set_logger(Some(Box::new(|_, _| {})));
@@ -275,8 +396,9 @@ fn run_drive(out: &mut impl Write, cid: &str, n: &mut usize, st: &mut Stats, cx:
     } else if let Some(rest) = drive.strip_prefix("cancel:") {
         let mut it = rest.split(':');
         let k: usize = it.next().and_then(|x| x.parse().ok()).unwrap_or(0);
-        let resume = it.next() == Some("resume");
-        let (t, was) = parse_cancel(cx.lang, doc, k, resume);
+        let how = it.next().unwrap_or("");
+        let resume = how.starts_with("resume");
+        let (t, was) = parse_cancel(cx.lang, doc, k, resume, if how == "resume4" { 4 } else { 0 });
         if was {
             st.cancelled += 1;
         }
@@ -341,14 +463,28 @@ fn drives_for(rng: &mut Rng, lang: &Language, doc: &[u8], thorough: bool) -> Vec
         v.push(format!("u16le:c{}", rng.range(1, 3)));
         v.push(format!("u16be:c{}", rng.range(1, 3)));
     }
-    let hops = ["other", "same", "half", "lang", "ranges", "reset", "cancel", "incr"];
-    for _ in 0..(if thorough { 4 } else { 2 }) {
+    let hops = ["other", "same", "half", "lang", "ranges", "reset", "cancel", "incr", "flip", "langcancel", "cancelsl", "cancelk", "cancelo", "rset", "logoff", "dotoff"];
+    for _ in 0..(if thorough { 6 } else { 3 }) {
         let k = rng.range(1, 5);
         let ops: Vec<&str> = (0..k).map(|_| *rng.pick(&hops)).collect();
         v.push(format!("hist:{}", ops.join("+")));
     }
     v.push("log".into());
+    v.push("failed".into());
+    if n <= 4000 {
+        v.push(if rng.chance(1, 2) { "dot".into() } else { "dotlog".into() });
+    }
+    if std::str::from_utf8(doc).is_ok() {
+        v.push(format!("custom:c{}", *rng.pick(&[0usize, 4, 5, 7])));
+    }
     let calls = count_callbacks(lang, doc);
+    if calls > 0 {
+        // histories in which a parse of THIS document really is cancelled
+        for op in ["cancel", "cancelk", "cancelsl"] {
+            let follow = *rng.pick(&["", "+flip", "+rset", "+other", "+langcancel", "+cancelo"]);
+            v.push(format!("hist:{op}{follow}"));
+        }
+    }
     if calls > 0 {
         let ks: Vec<usize> = if calls <= 12 || (thorough && calls <= 64) { (0..calls).collect() } else {
             let mut s: Vec<usize> = (0..(if thorough { 64 } else { 6 })).map(|_| rng.below(calls)).collect();
@@ -361,6 +497,9 @@ fn drives_for(rng: &mut Rng, lang: &Language, doc: &[u8], thorough: bool) -> Vec
         for k in ks {
             v.push(format!("cancel:{k}:resume"));
             v.push(format!("cancel:{k}:reset"));
+            if k % 3 == 0 {
+                v.push(format!("cancel:{k}:resume4"));
+            }
         }
     }
     v
@@ -463,6 +602,8 @@ fn main() {
     let mut st = Stats { cases: 0, drives: 0, kinds: Default::default(), cancelled: 0 };
     let other = zoo::load("arith").expect("arith");
     let other_doc = b"1 + 2 * (x - 3)".to_vec();
+    // large enough for several progress callbacks (one per 100 parser operations)
+    let other_big: Vec<u8> = vec!["1 + 2 * (x - 3)"; 400].join(" + ").into_bytes();
     let run_specs = |src: &str, tag: &str, out: &mut std::io::BufWriter<std::fs::File>, st: &mut Stats| {
         for (i, line) in src.lines().enumerate() {
             if line.trim().is_empty() || line.starts_with('#') {
@@ -480,7 +621,7 @@ fn main() {
             }
             if let Ok(b) = zoo::load(parts[0]) {
                 let doc = if parts[1] == "-" { vec![] } else { unhex(parts[1]) };
-                let cx = Ctx { lang: &b.language, other: &other.language, other_doc: &other_doc };
+                let cx = Ctx { lang: &b.language, other: &other.language, other_doc: &other_doc, other_big: &other_big };
                 emit_case(out, &format!("{}-{tag}{i}", parts[0]), parts[0], &cx, &doc, &[parts[2].to_string()], st);
             }
         }
@@ -510,7 +651,7 @@ fn main() {
                 continue;
             }
         };
-        let cx = Ctx { lang: &b.language, other: &other.language, other_doc: &other_doc };
+        let cx = Ctx { lang: &b.language, other: &other.language, other_doc: &other_doc, other_big: &other_big };
         let gg = gen::GrammarGen::new(&b.grammar_json, zoo::read_zoo_file(&id, "samples.json").as_deref());
         for d in 0..docs_per_lang {
             // sizes: tiny (every split), small, medium, long (several progress callbacks, balancing of long repeats)
@@ -546,5 +687,5 @@ fn main() {
         }
     }
     out.flush().unwrap();
-    eprintln!("c09: wrote {} cases, {} drives {:?}, {} parses actually cancelled, to {}", st.cases, st.drives, st.kinds, st.cancelled, out_path);
+    eprintln!("c09: wrote {} cases, {} drives {:?}, {} parses actually cancelled (+ {} inside histories), to {}", st.cases, st.drives, st.kinds, st.cancelled, HIST_CANCELLED.load(std::sync::atomic::Ordering::Relaxed), out_path);
 }
